@@ -148,10 +148,16 @@ class Sym:
 class PInt:
     """an exact (unbounded) Python integer computed from data: `.uint()` / `.int()` of a Bits value and arithmetic on it --
     no reduction modulo 2^n happens on it"""
-    __slots__ = ('term', 'ub', 'signed')
+    __slots__ = ('term', 'ub', 'signed', 'bv', 'neg')
 
-    def __init__(self, term, ub, signed=False):
-        self.term, self.ub, self.signed = term, ub, signed
+    def __init__(self, term, ub, signed=False, bv=None, neg=False):
+        # bv: the source-bit vector the integer was read from (its value is bv, or bv - 2^n when `neg`: the two's
+        # complement reading of a vector whose sign bit is 1)
+        self.term, self.ub, self.signed, self.bv, self.neg = term, ub, signed, bv, neg
+
+    def bounds(self):
+        off = (1 << self.bv.n) if self.neg else 0
+        return self.bv.lo() - off, self.bv.hi() - off, self.bv.first_free()
 
     def __repr__(self):
         return f"PInt{self.term}"
@@ -544,6 +550,14 @@ def to_bits(v, n, where=''):
 def eq3(a, b, where=''):
     """three-valued equality: True / False / raises Undetermined or returns a Sym condition"""
     if isinstance(a, PInt) or isinstance(b, PInt):
+        for x, y in ((a, b), (b, a)):
+            if isinstance(x, PInt) and x.bv is not None and isinstance(y, (int, bool)):
+                lo, hi, free = x.bounds()
+                if not (lo <= int(y) <= hi):
+                    return False
+                if x.neg:
+                    return eq3(x.bv, int(y) + (1 << x.bv.n), where)
+                return eq3(x.bv, int(y), where) if int(y) < (1 << x.bv.n) else False
         return Sym(comm('eq', termof(a), termof(b)), 1)
     if isinstance(a, (Sym,)) or isinstance(b, (Sym,)):
         for x, y in ((a, b), (b, a)):
@@ -588,6 +602,8 @@ def order3(op, a, b, where=''):
             return x, x, None
         if isinstance(x, BV):
             return x.lo(), x.hi(), x.first_free()
+        if isinstance(x, PInt) and x.bv is not None:
+            return x.bounds()
         if isinstance(x, Sym) or (isinstance(x, PInt) and not x.signed):
             return 0, (1 << x.ub) - 1, 'sym'
         raise AnalysisError(f"order comparison of {x!r} {where}")
@@ -822,6 +838,9 @@ class Interp:
             return int(v)
         if isinstance(v, int):
             return v
+        if isinstance(v, PInt) and v.bv is not None:
+            k = self.index(v.bv)
+            return k - (1 << v.bv.n) if v.neg else k
         if isinstance(v, BV):
             if v.concrete():
                 return v.value()
@@ -1024,6 +1043,8 @@ class Interp:
             if v.hi() == 0:
                 return False
             raise Undetermined(v.first_free())
+        if isinstance(v, PInt) and v.bv is not None:
+            return True if v.neg else self.truth(v.bv, e, decide)
         if isinstance(v, Sym):
             if v.n != 1 and decide:
                 raise AnalysisError(f"truth value of symbolic data{': ' + norm(e)[:60] if e is not None else ''}")
@@ -1113,11 +1134,20 @@ class Interp:
         if isinstance(base, (BV, Sym)) and attr == 'uint' and not args:
             if isinstance(base, BV) and base.concrete():
                 return base.value()
-            return PInt(termof(base), ubof(base))
+            return PInt(termof(base), ubof(base), bv=base if isinstance(base, BV) else None)
         if isinstance(base, (BV, Sym)) and attr == 'int' and not args:
             if isinstance(base, BV) and base.concrete():
                 v = base.value()
                 return v - (1 << base.n) if (v >> (base.n - 1)) & 1 else v
+            if isinstance(base, BV):
+                sign = base.bits[-1]
+                if isinstance(sign, tuple):
+                    if sign[0] == 'i':
+                        raise Undetermined(sign)          # case split on the sign bit
+                    return PInt(('sint', base.n, termof(base)), 64, True)
+                if sign == 0:
+                    return PInt(termof(base), base.n - 1, bv=base)
+                return PInt(('sint', base.n, termof(base)), 64, True, bv=base, neg=True)
             return PInt(('sint', base.n, termof(base)), 64, True)
         if isinstance(base, StrTok):
             if attr in ('lstrip', 'rstrip', 'strip', 'lower', 'upper'):
@@ -1156,7 +1186,9 @@ class Interp:
             if isinstance(v, StrTok):
                 return IntSym('m')
             if isinstance(v, BV):
-                return self.index(v)
+                return v.value() if v.concrete() else PInt(termof(v), ubof(v), bv=v)     # Bits.__int__ is unsigned
+            if isinstance(v, PInt):
+                return v
             if isinstance(v, (int, bool)):
                 return int(v)
             if isinstance(v, str):
